@@ -82,6 +82,14 @@ class C02(Check):
                     k += 1
                     yield dict(seed=seed * 7919 + k, source=source, mode=mode, weights=True, redshifts=bool(k % 2),
                                dtype="f8", degrees=True, n=n, chunk=c, parallel=True, progress=False, group="smaller")
+        # whole-number columns (catalogues with coordinates in integer degrees, integer weights) and half floats
+        for src_ in ("fits", "hdf5", "parquet", "dataframe"):
+            for dt in ("ic", "f2"):
+                if dt == "f2" and src_ in ("fits", "parquet"):
+                    continue  # no half-float column type in these formats
+                k += 1
+                yield dict(seed=seed * 7919 + 800 + k, source=src_, mode=["centres", "index"][k % 2], weights=True, redshifts=bool(k % 2),
+                           dtype=dt, degrees=True, n=90, chunk=40, parallel=False, progress=False, group="smaller", border=False)
         for src_ in ("fits", "hdf5", "parquet", "dataframe"):
             for dt in ("u2", "u4"):
                 for mode in ("centres", "index"):
@@ -150,7 +158,15 @@ class C02(Check):
             n = max(n, 80)
         pid_true = None
         cols = sources.make_table(rng, n, weights=case["weights"], redshifts=case["redshifts"], degrees=case["degrees"],
-                                  dtype=case["dtype"], centres_xyz=centres, spread=np.deg2rad(1.5))
+                                  dtype="f8" if case["dtype"] in ("ic", "f2") else case["dtype"], centres_xyz=centres, spread=np.deg2rad(1.5))
+        if case["dtype"] == "ic":
+            # coordinates in whole degrees as 32/16-bit integers, whole-number weights as 64-bit integers
+            cols["ra"] = (np.round(cols["ra"]).astype("i4") % 360).astype("i4")
+            cols["dec"] = np.clip(np.round(cols["dec"]), -90, 90).astype("i2")
+            if "w" in cols:
+                cols["w"] = (np.arange(n) + 1).astype("i8")
+        elif case["dtype"] == "f2":
+            cols["ra"], cols["dec"] = cols["ra"].astype("f2"), cols["dec"].astype("f2")
         if case.get("border") and len(centres) >= 2 and mode != "generate":
             # hostile class: a third of the points sit 3e-9 .. 1e-6 rad from the bisector of two centres
             c1, c2 = centres[0], centres[1]
